@@ -134,10 +134,13 @@ def corrections (p : NumSpec α) (v : Val α) : Except Err (Val α) :=
     fixNeg p v2
   else .ok v
 
-/-- `NumParam.add` (the value appended to `v`) -/
+/-- `NumParam.add` (the value appended to `v`): NaN/None handling, the corrections, and then
+`super().add(value)` = `BaseParam._sanitize`, which applies the NaN/None handling a second time (a value
+corrected to a `None` default of a mandatory parameter raises there) -/
 def numAdd (p : NumSpec α) (v : Val α) : Except Err (Val α) := do
   let v1 ← fillDefault p.default p.mandatory (nanToNone v)
-  corrections p v1
+  let v2 ← corrections p v1
+  fillDefault p.default p.mandatory (nanToNone v2)
 
 /-- one element of `NumParam.to_array` for `vtype = float`: `np.array(v, dtype=float)`, then `±inf -> ±1e8` -/
 def toArr : Val α → Except Err (Val α)
